@@ -43,7 +43,7 @@ func genCounterHistory(seed uint64, tier string) *spec.RunSpec {
 	for i := 0; i < n; i++ {
 		switch k := r.Intn(20); {
 		case k < 8:
-			h.Ops = append(h.Ops, spec.HOp{Op: "add", Delta: int64(r.Pick(0, 1, 1, 100, 65536, 1 << 20, 1 + r.Intn(5000))), Count: r.Pick(1, 1, 1, 2, 7)})
+			h.Ops = append(h.Ops, spec.HOp{Op: "add", Delta: int64(r.Pick(0, 1, 1, 100, 65536, 1<<20, 1+r.Intn(5000))), Count: r.Pick(1, 1, 1, 2, 7)})
 		case k < 13:
 			g := gaps[r.Intn(len(gaps))]
 			if !big && g > 7201*sec {
@@ -175,7 +175,7 @@ func genQuotaSpec(seed uint64, tier string) *spec.RunSpec {
 func init() {
 	register(&propDef{
 		id: "C19", level: "exploration", quickRuns: 96, thoroughRuns: 2000, wallPerRun: 5 * time.Minute,
-		rule: "Two scenarios. (1) Counter histories under the virtual clock: 1100-3600 (thorough: up to 10000) operations over {Add d (bursts inside one millisecond), Sleep (1 us .. 30 days, straddling the 2 s / 2 min / 2 h / 8 d roll-up ages), Load, DeltaBetween(window), dump->restart->load of the counter, DumpMetricsNow + LoadMetricsFromDump with an intact or torn file}; model = list of (time, delta); after every step Load = sum, history time-ordered, sum(history) = total, every window within [increments in (t1+24h, t2], increments in (t1, t2+24h)] and <= total, reload never decreases a total. (2) End to end on the real client/server stack: a user with a 1-2 MB/1-30 day quota moves a chosen volume (well below, just below, between, just above, well above the allowance) in phase 1; phase 2 opens new sessions for that user and for users without / with a large quota, both handshake modes, TCP and UDP, also concurrently with the accounting. Oracle: per user UploadBytes/DownloadBytes equal the bytes the server application read/wrote; a session opened when >= (M+1) MiB were counted is refused with the quota status on the wire and is never returned by Server.Accept; a session opened when <= M x 10^6 bytes were counted, and every session of other users, is served.",
+		rule:        "Two scenarios. (1) Counter histories under the virtual clock: 1100-3600 (thorough: up to 10000) operations over {Add d (bursts inside one millisecond), Sleep (1 us .. 30 days, straddling the 2 s / 2 min / 2 h / 8 d roll-up ages), Load, DeltaBetween(window), dump->restart->load of the counter, DumpMetricsNow + LoadMetricsFromDump with an intact or torn file}; model = list of (time, delta); after every step Load = sum, history time-ordered, sum(history) = total, every window within [increments in (t1+24h, t2], increments in (t1, t2+24h)] and <= total, reload never decreases a total. (2) End to end on the real client/server stack: a user with a 1-2 MB/1-30 day quota moves a chosen volume (well below, just below, between, just above, well above the allowance) in phase 1; phase 2 opens new sessions for that user and for users without / with a large quota, both handshake modes, TCP and UDP, also concurrently with the accounting. Oracle: per user UploadBytes/DownloadBytes equal the bytes the server application read/wrote; a session opened when >= (M+1) MiB were counted is refused with the quota status on the wire and is never returned by Server.Accept; a session opened when <= M x 10^6 bytes were counted, and every session of other users, is served.",
 		assumptions: []string{"the allowance is interpreted loosely (refusal required from (M+1) MiB, service required up to M x 10^6 bytes; in between either)", "the dump file is a real temporary file; torn writes are emulated by truncating it"},
 		components:  realComponents,
 		gen: func(master uint64, idx int, tier string) *spec.RunSpec {
